@@ -154,6 +154,31 @@ pub fn main() -> i32 {
         }
       }
       println!("   generated rules: 200 tried, {rejected} rejected, {with_findings} with findings");
+      let mut grej = 0;
+      for n in 0..100 {
+        let (gs, rs) = gen_random_globals(&mut rng, lang, n);
+        let w2 = CliWorld {
+          rule_dirs: vec![RuleDir { name: "rules".into(), files: vec![RuleFile { name: "g.yml".into(), docs: rs.clone() }] }],
+          util_dirs: vec![RuleDir { name: "utils".into(), files: gs.iter().enumerate().map(|(i, g)| RuleFile { name: format!("g{i}.yml"), docs: vec![g.clone()] }).collect() }],
+          with_tests: false,
+          ..w.clone()
+        };
+        if rs.is_empty() {
+          continue;
+        }
+        w2.materialize(&root);
+        let o = cli_run::run_cli(&root, &a(&["sg", "scan", "--json=stream", "-j", "1"]), 7, None);
+        if o.result.is_err() && o.diagnostic_errors().is_none() {
+          grej += 1;
+          if grej <= 2 {
+            println!("   generated globals rejected: {:?}\n{}\n{}", o.result, gs.iter().map(|g| g.to_yaml()).collect::<Vec<_>>().join("---\n"), rs.iter().map(|g| g.to_yaml()).collect::<Vec<_>>().join("---\n"));
+          }
+        }
+      }
+      println!("   generated global utils: 100 projects tried, {grej} rejected");
+      if grej > 0 {
+        bad += 1;
+      }
       if rejected > 0 {
         bad += 1;
       }
